@@ -63,6 +63,10 @@ func genRigCase(r *rng.R) rigIn {
 		{Kind: "enum", Name: "Color", Pkg: "ctl", File: "types.go", Base: "string", Consts: [][2]string{{"ColorRed", `"red"`}, {"ColorGreen", `"green"`}}},
 		// the same shape in another package: a parameter of the same NAME with a type from another package needs its own import alias
 		{Kind: "struct", Name: "Parcel", Pkg: "other", File: "models.go", Fields: []pField{{Name: "Name", Type: "string", Tag: `json:"name" validate:"required"`}, {Name: "Count", Type: "int", Tag: `json:"count" validate:"gte=0"`}}},
+		// … and a type of the other package that shares its NAME with one of the controller's package: `other.Item` is not `Item`
+		{Kind: "struct", Name: "Item", Pkg: "other", File: "models.go", Fields: []pField{{Name: "Name", Type: "string", Tag: `json:"name" validate:"required"`}, {Name: "Count", Type: "int", Tag: `json:"count" validate:"gte=0"`}}},
+		// an alias DECLARATION to a qualified type, used as a body
+		{Kind: "alias", Name: "Payload", Pkg: "ctl", File: "types.go", Base: "other.Parcel", Assign: true},
 		// `required` on a by-value struct field is a no-op for go-playground's default validator (every engine uses it)
 		{Kind: "struct", Name: "Meta", Pkg: "ctl", File: "types.go", Fields: []pField{{Name: "Note", Type: "string", Tag: `json:"note"`}}},
 		{Kind: "struct", Name: "Wrap", Pkg: "ctl", File: "types.go", Fields: []pField{{Name: "Meta", Type: "Meta", Tag: `json:"meta" validate:"required"`}, {Name: "Name", Type: "string", Tag: `json:"name" validate:"required"`}}},
@@ -91,6 +95,7 @@ func genRigCase(r *rng.R) rigIn {
 	scalarTypes := []string{"string", "int", "int8", "int16", "int32", "int64", "uint", "uint8", "uint16", "uint32", "uint64", "bool", "Color", "float64", "float32"}
 	unformattable := r.Chance(1, 12)
 	nc := 1 + r.Intn(2)
+	sharedOps := r.Chance(1, 3)
 	for ci := 0; ci < nc; ci++ {
 		prefix := rng.Pick(r, []string{fmt.Sprintf("/c%d", ci), fmt.Sprintf("/api/c%d", ci), fmt.Sprintf("/c%d/", ci)})
 		c := pController{Name: fmt.Sprintf("Ctl%d", ci), Pkg: "ctl", File: fmt.Sprintf("c%d.go", ci),
@@ -111,6 +116,11 @@ func genRigCase(r *rng.R) rigIn {
 				verb = "POST"
 			}
 			m := pMethod{Name: fmt.Sprintf("Op%d_%d", ci, mi), File: c.File}
+			if sharedOps {
+				// two controllers may name their methods alike (the operation id is the bare method name): every handler still
+				// is gated by ITS route's security and calls ITS controller
+				m.Name = fmt.Sprintf("Op0_%d", mi)
+			}
 			// what the operation itself does: most succeed silently; some set a status of their own (the routers must
 			// answer with it, and with the same body - none, for an operation without a value), some fail
 			switch r.Intn(8) {
@@ -195,7 +205,7 @@ func genRigCase(r *rng.R) rigIn {
 					bodyKind = "json"
 					bt := "Item"
 					if (firstBody && ci == 1) || (!firstBody && r.Chance(1, 3)) {
-						bt = "other.Parcel"
+						bt = rng.Pick(r, []string{"other.Parcel", "other.Item"})
 					}
 					if !firstBody && r.Chance(1, 3) {
 						bt = "[]" + bt // every element is validated
@@ -205,9 +215,12 @@ func genRigCase(r *rng.R) rigIn {
 					if !firstBody && !enumBody && r.Chance(1, 6) {
 						bt = "Page[[]string]"
 					}
+					if !firstBody && !enumBody && r.Chance(1, 8) {
+						bt = "Payload"
+					}
 					if enumBody {
 						bt = "Employee"
-					} else if bt == "Page[[]string]" {
+					} else if bt == "Page[[]string]" || bt == "Payload" {
 					} else if !firstBody && !strings.HasPrefix(bt, "[]") && bt != "Employee" && r.Chance(1, 4) {
 						bt = "Wrap"
 					}
@@ -375,6 +388,15 @@ func genRigCase(r *rng.R) rigIn {
 				dn := build("deny-all-nil-context", nil, "", all)
 				dn.NilCtx = true
 				add(dn)
+				if r.Chance(1, 2) {
+					// the refusal carries a payload of its own (a string, or a struct that is also an error): the response body is that payload
+					dc := build("deny-all-custom-"+rng.Pick(r, []string{"string", "error"}), nil, "", all)
+					if dc.Headers == nil {
+						dc.Headers = map[string]string{}
+					}
+					dc.Headers["X-Rig-Custom"] = strings.TrimPrefix(dc.Kind, "deny-all-custom-")
+					add(dc)
+				}
 				if r.Chance(1, 2) {
 					// the refusal carries its own status: the response must show that one, registered reason phrase or not
 					ds := build("deny-all-own-status", nil, "", all)
